@@ -86,7 +86,7 @@ def applySpec (w : World) (tok : String) : Option World :=
         | some on =>
           let arg := String.intercalate ":" rest
           let r1 := { r with conf := { r.conf with parseopts := on } }
-          let res : Option IntoRes :=
+          let res : Option (IntoRes ReqSt) :=
             if k = "parse1" then (ofHex arg).map (parseIntoH1 r1)
             else (kvList arg).map fun fs => parseIntoH2 { r1 with version := 2 } fs true
           match res with
@@ -103,9 +103,9 @@ def applySpec (w : World) (tok : String) : Option World :=
     | "hm" => num.bind fun n => setR { r with handlerModule := n ≠ 0 }
     | "uc" => setR { r with pluginCtx := (List.range r.pluginCtx.length).map fun i =>
                                            if i = 0 then r.pluginCtx.getD 0 none else some [] }
-    | "qh" => (kvList v).bind fun l => setR (r.onCore fun c => l.foldl (fun s kv => rqstSet s (hid (kv.1.map toLower)) kv.1 kv.2) c)
+    | "qh" => (kvList v).bind fun l => setR (r.onLive fun c => l.foldl (fun s kv => rqstSet s (hid (kv.1.map toLower)) kv.1 kv.2) c)
     | "host" => bytes.bind fun b =>
-        setR (r.onCore fun c =>
+        setR (r.onLive fun c =>
           let s := rqstSet c idHost (ofString "Host") b
           { s with httpHost := rqstGet s idHost (ofString "Host") })
     | "rbl" => num.bind fun n => setR { r with reqbodyLength := n }
@@ -125,9 +125,9 @@ def applySpec (w : World) (tok : String) : Option World :=
     | "pi" => bytes.bind fun b => setR { r with pathinfo := some b }
     | "snb" => bytes.bind fun b => setR { r with serverNameBuf := some b }
     | "sn" => setR { r with serverName := if v = "buf" then .nameBuf else .authority }
-    | "env" => (kvList v).bind fun l => setR (r.onCore fun c => l.foldl (fun s kv => envSet s kv.1 kv.2) c)
-    | "rh" => (kvList v).bind fun l => setR (r.onCore fun c => l.foldl (fun s kv => respSet s (hid (kv.1.map toLower)) kv.1 kv.2) c)
-    | "rhi" => (kvList v).bind fun l => setR (r.onCore fun c => l.foldl (fun s kv => respInsert s (hid (kv.1.map toLower)) kv.1 kv.2) c)
+    | "env" => (kvList v).bind fun l => setR (r.onLive fun c => l.foldl (fun s kv => envSet s kv.1 kv.2) c)
+    | "rh" => (kvList v).bind fun l => setR (r.onLive fun c => l.foldl (fun s kv => respSet s (hid (kv.1.map toLower)) kv.1 kv.2) c)
+    | "rhi" => (kvList v).bind fun l => setR (r.onLive fun c => l.foldl (fun s kv => respInsert s (hid (kv.1.map toLower)) kv.1 kv.2) c)
     | "wq" => bytes.bind fun b => setR { r with writeQueue := r.writeQueue.append b }
     | "bq" => bytes.bind fun b => setR { r with reqbodyQueue := r.reqbodyQueue.append b }
     | "rdq" => bytes.bind fun b => setR { r with readQueue := r.readQueue.append b }
@@ -173,8 +173,8 @@ def runOp (op : String) (w : World) : Option ReqSt :=
   | "ex" => some (requestResetEx w.r)
   | "resetex" => some (requestResetEx (requestReset hdrIds e w.r))
   | "respreset" => some (responseReset hdrIds w.r)
-  | "bodyclear0" => some (w.r.onCore (bodyClear hdrIds · false))
-  | "bodyclear1" => some (w.r.onCore (bodyClear hdrIds · true))
+  | "bodyclear0" => some (w.r.onLive (bodyClear hdrIds · false))
+  | "bodyclear1" => some (w.r.onLive (bodyClear hdrIds · true))
   | "release" => some (requestRelease hdrIds e w.r)
   | "h2init" => some (h2InitStream w.h2r 65535 (requestRelease hdrIds e w.r))
   | _ => none
